@@ -7,6 +7,27 @@ HOOK_COMMITS = []
 NOT_APPLICABLE = {}
 
 CHECKS = {
+    "C01": dict(pkg="internal/crypto",
+                text="Stateful generated histories on a real SessionKey pair with an adversary (replay, reorder, reflect, bit-flip, truncate, forged prefix/counter near 2^64) compared step by step with a reference acceptance model; a final fresh message per endpoint must always be accepted.",
+                note="Trusts Go, rapid, x/crypto AEAD (forgeries are random bodies, not real tag forgeries) and the reference model in harness/crypto/zz_vp_c01_test.go.",
+                technique="model-based stateful property testing (rapid state machine) with adversarial delivery",
+                runs=[dict(run="^TestVP_C01_", quick=3000, thorough=320000, shards=16)]),
+    "C02": dict(pkg="internal/crypto", race=True,
+                text="Nonces of every ciphertext of both endpoints of a session are collected and must be pairwise distinct, direction-separated and gap-free, for generated sequential interleavings and for concurrent senders under the race detector.",
+                note="Concurrent part is a stress run: the harness does not own the scheduler inside Encrypt, so absence of a failure is weaker evidence than for model-based checks; the race detector makes an unsynchronised counter a deterministic report. Trusts Go, rapid, -race.",
+                technique="property-based testing (rapid) with an all-distinct/gap-free invariant + concurrent stress under -race",
+                runs=[dict(run="^TestVP_C02_Sequential$", quick=150, thorough=8000, shards=8),
+                      dict(run="^TestVP_C02_Concurrent$", quick=60, thorough=4000, shards=8)]),
+    "C38": dict(pkg="internal/peer", race=True, shared=["zzmem"],
+                text="Both allocator roles and both ends of a peer.Connection over an in-memory link allocate ids from many goroutines; ids must be non-zero, unique, parity-separated and contiguous.",
+                note="Stress run under the race detector (the harness does not own the scheduler inside the atomic add); trusts Go, rapid, -race and the in-memory transport harness/zzmem.",
+                technique="property-based concurrent stress (rapid-generated goroutine/allocation counts) with uniqueness/parity/contiguity invariant under -race",
+                runs=[dict(run="^TestVP_C38_", quick=150, thorough=6000, shards=8)]),
+    "C03": dict(pkg="internal/crypto",
+                text="Key-agreement laws on generated scalars/ids/perturbations, plus every tunnel kind's responder and initiator call shape against an independent reference endpoint (added as layers are built).",
+                note="Layer 1 (crypto laws) trusts x/crypto primitives; layers 2/3 trust the harness reference initiator/responder written from the documented convention Derive(secret, requestID, initiatorPub, responderPub, isInitiator). ICMP data phase unreachable in the sandbox (no unprivileged ICMP sockets): covered at key-derivation level only.",
+                technique="property-based testing (rapid): algebraic/metamorphic laws + differential against a reference endpoint",
+                runs=[dict(run="^TestVP_C03_CryptoLaws$", quick=4000, thorough=400000, shards=16)]),
     "C33": dict(pkg="internal/sleep",
                 text="Generated instants (incl. pre-epoch, +-2 ns around every cycle/window/tolerance edge) and configurations are compared with an independent floor-division reference over all k in Z; exploration is the right level for a pure function over a huge numeric domain.",
                 note="Trusts the Go toolchain, rapid, and the reference arithmetic in harness/sleep/zz_vp_c33_test.go; instants limited to +-100 years around the epoch (time.Sub saturation).",
